@@ -153,6 +153,7 @@ func main() {
 			"a report is the 80-byte datagram including its signature: the same content under a second valid signature (v') is a second distinct report, so {v, v'} must ban in either order",
 			"bulk delivery goes through VerifInject (the function the UDP listener calls); a sample of sequences goes through the real socket",
 			"fault sequences: one delivery per sequence happens while equipment-reports.dat cannot be opened (ENOENT); the published value must still follow the set of reports received; what a restart reconstructs after a lost append is not judged here",
+			"restart sequences: the server is restarted (clock unchanged, now-offset <= 3200 so that neither the shutdown nor the start-up rotates the window) in the middle of an interleaved sequence; the set rule is judged for the reports re-read from the log and for those received afterwards",
 			"the race-variant stress batch judges only the final values (function of the delivered set); race reports are recorded, not judged, because the property does not claim race freedom",
 		},
 		Plan:          plan,
@@ -196,6 +197,7 @@ func plan(tier string, seed int64) []run.Batch {
 		add("rand", 250, 80, "") // 20 000 random interleaved sequences
 		add("burst", 60, 6, "")
 		add("fault", 400, 8, "")
+		add("restart", 100, 8, "")
 		add("stress", 400, 1, "race")
 	} else {
 		add("exh", 0, 8, "")
@@ -203,6 +205,7 @@ func plan(tier string, seed int64) []run.Batch {
 		add("rand", 100, 4, "")
 		add("burst", 30, 2, "")
 		add("fault", 150, 2, "")
+		add("restart", 25, 2, "")
 		add("stress", 120, 1, "race")
 	}
 	return bs
@@ -245,7 +248,7 @@ func post(c *ev.Check, outs []*run.Outcome) {
 		return
 	}
 	// positive controls: the monitor must have seen every kind of transition
-	for _, k := range []string{"obs.single_value", "obs.replay_kept", "obs.equivocation_ban", "obs.overcapacity_ban", "obs.banned_stays", "obs.negative_published", "obs.limit_published", "obs.resigned_ban", "burst.judged", "fault.on_banning_report",
+	for _, k := range []string{"obs.single_value", "obs.replay_kept", "obs.equivocation_ban", "obs.overcapacity_ban", "obs.banned_stays", "obs.negative_published", "obs.limit_published", "obs.resigned_ban", "burst.judged", "fault.on_banning_report", "restart.sequences", "restart.overcapacity_after_restart",
 		"via_socket", "via_hook", "surface.stats", "surface.sync", "surface.recent", "perm.classes_compared", "rand.sequences", "stress.cells"} {
 		c.Require(k, 1)
 	}
@@ -1045,7 +1048,45 @@ func (e *env) runGroups(kind string, alpha []letter, groups [][]int) {
 
 // ---------------------------------------------------------------- random interleaved sequences
 
-func (e *env) runRandom() bool {
+// restartServer restarts the server in the middle of a sequence. The clock is set between Close and Start (it stays
+// where it was: the caller keeps now-offset below the start-up catch-up threshold of 4000).
+func (e *env) restartServer(now uint32) bool {
+	run.Op("restart now=%d offset=%d", now, e.offset)
+	if e.udp != nil {
+		e.r.Count("foreign_datagrams_seen", int64(e.udp.Foreign))
+		e.udp.Close()
+		e.udp = nil
+	}
+	if err := e.w.Close(); err != nil {
+		e.r.Violationf("restart-failed", nil, "server did not close: %v", err)
+		e.dead = true
+		return false
+	}
+	drv.SetClock(now)
+	if err := e.w.Start(); err != nil {
+		e.r.Violationf("restart-failed", nil, "the server does not start again: %v", err)
+		e.dead = true
+		return false
+	}
+	var err error
+	if e.udp, err = e.w.NewStrictUDP(); err != nil {
+		e.r.Inconc("cannot open UDP socket: " + err.Error())
+		e.dead = true
+		return false
+	}
+	if off := e.w.S.VerifSnapshot(false).Offset; off != e.offset {
+		e.r.Inconc(fmt.Sprintf("window offset moved across the restart: %d -> %d", e.offset, off))
+		e.dead = true
+		return false
+	}
+	e.r.Count("restarts", 1)
+	return true
+}
+
+// runRandom plays one interleaved sequence over 3 devices x 6 slots. With restartMid the server is restarted in
+// the middle: the capacity and ban rules keep applying to the devices authorized before the restart, for the
+// reports received before it (re-read from the log) and for those received after it.
+func (e *env) runRandom(restartMid bool) bool {
 	if e.dead {
 		return false
 	}
@@ -1055,8 +1096,22 @@ func (e *env) runRandom() bool {
 		}
 	}
 	e.seqN++
-	blk := e.blocks[len(e.blocks)-1]
-	e.blocks = e.blocks[:len(e.blocks)-1]
+	bi := len(e.blocks) - 1
+	if restartMid {
+		// keep now-offset <= 3200: above it the rotation loop, released from its gate by Close, would still
+		// rotate once while shutting down (and from 4000 on the start-up catch-up rotates)
+		for bi >= 0 && e.blocks[bi]*6+5+432 > 3200 {
+			bi--
+		}
+		if bi < 0 {
+			if !e.newWorld() {
+				return false
+			}
+			return e.runRandom(restartMid)
+		}
+	}
+	blk := e.blocks[bi]
+	e.blocks = append(e.blocks[:bi], e.blocks[bi+1:]...)
 	var cells []*cell
 	for _, d := range e.devs {
 		for k := 0; k < 6; k++ {
@@ -1073,14 +1128,51 @@ func (e *env) runRandom() bool {
 		name string
 	}
 	sentBy := map[*cell][]sentRep{}
+	// forced deliveries of the restart variant: over-capacity and at-limit reports before AND after the restart,
+	// on empty and on filled slots
+	type forcedStep struct {
+		cell int
+		l    letter
+	}
+	var forced map[int]forcedStep
+	restartAt := -1
+	if restartMid {
+		pre := []forcedStep{{0, Llim1}, {1, Lv}, {2, Llim}, {6, Lmax63}, {7, Lw}, {12, Llim1}, {13, Llim}}
+		post := []forcedStep{{1, Llim1}, {3, Llim1}, {4, Llim}, {2, Llim}, {0, Lv}, {8, Lmax63}, {7, Llim1}, {13, Llim1}, {14, Llim}, {12, Lw}}
+		steps = len(pre) + len(post) + 6 + e.rng.Intn(20)
+		restartAt = len(pre) + e.rng.Intn(steps-len(pre)-len(post))
+		forced = map[int]forcedStep{}
+		for i, f := range pre {
+			forced[i] = f
+		}
+		for i, f := range post {
+			forced[restartAt+i] = f
+		}
+	}
 	for s := 0; s < steps; s++ {
+		if s == restartAt {
+			if !e.restartServer(now) {
+				return false
+			}
+			snap := e.w.S.VerifSnapshot(true)
+			for _, c := range cells {
+				e.judge(c, snap.Reports[c.d.ID][c.idx], now, "after the restart")
+			}
+			hist += "RESTART;"
+		}
 		c := cells[e.rng.Intn(len(cells))]
 		if e.rng.Intn(3) == 0 { // concentrate on few cells so that long histories per cell occur
 			c = cells[e.rng.Intn(3)*6+e.rng.Intn(2)]
 		}
 		var rep refenc.Report
 		var name string
-		if prev := sentBy[c]; len(prev) > 0 && e.rng.Intn(10) < 3 {
+		if f, ok := forced[s]; ok {
+			c = cells[f.cell]
+			rep, name = e.mk(c, f.l), f.l.String()
+			if s >= restartAt && overCapacity(rep.Power, c.d.cap) {
+				e.r.Count("restart.overcapacity_after_restart", 1)
+			}
+		} else if prev := sentBy[c]; len(prev) > 0 && e.rng.Intn(10) < 3 {
 			p := prev[e.rng.Intn(len(prev))]
 			rep, name = p.rep, p.name // exact replay of an earlier datagram
 		} else {
@@ -1127,7 +1219,11 @@ func (e *env) runRandom() bool {
 		e.surfaces(after, cells, e.seqN%16 == 0, now)
 	}
 	e.r.Eval(1)
-	e.r.Count("rand.sequences", 1)
+	if restartMid {
+		e.r.Count("restart.sequences", 1)
+	} else {
+		e.r.Count("rand.sequences", 1)
+	}
 	e.r.Count("rand.deliveries", int64(steps))
 	if multi {
 		e.r.Nontrivial("rand:" + hist)
@@ -1534,7 +1630,14 @@ func child(b run.Batch, r *ev.Result) {
 	case "rand":
 		e.ndev = 3
 		for i := 0; i < b.N; i++ {
-			if !e.runRandom() {
+			if !e.runRandom(false) {
+				break
+			}
+		}
+	case "restart":
+		e.ndev = 3
+		for i := 0; i < b.N; i++ {
+			if !e.runRandom(true) {
 				break
 			}
 		}
